@@ -83,6 +83,8 @@ def gen_plan(seed, tier):
       sp["pattern"] = r.choice(["sorted", "sorted_gap", "sorted_gap", "const", "arange", "reversed"])
     if r.random() < 0.25:
       sp["layout"] = "F"        # column-major 2-D indicator array (e.g. np.array([left, right]).T)
+    if r.random() < 0.2:
+      sp["negative"] = True     # indicators counted from the end, as in X[indices]
     return sp
 
   def maybe_fault():
@@ -206,6 +208,10 @@ def _query_indices(name, method, D, spec):
         idx[k_, j] = idx[k_ - 1, j]     # sorted, a repeat, span == length
   if t == 1:
     idx = idx[:, 0]
+  if spec.get("negative") and not str(spec["dtype"]).startswith("u") and D.N <= 120:
+    # X[indices] semantics: a negative indicator counts from the end
+    neg = rs.rand(*idx.shape) < 0.4
+    idx = np.where(neg, idx - D.N, idx)
   ind = _cast(idx, spec["dtype"], spec.get("layout"))
   formed = D.S[idx]
   if method == "score" and ts == 2:
